@@ -55,7 +55,10 @@ GoodStates == {"ok", "vu_eq", "exp_later", "exp_next", "two_onebad", "mal_good"}
 \* exp_eq: the key's expired_ts equals origin_server_ts (a key is valid strictly before its expired_ts)
 \* vu_m1: origin_server_ts is 1 ms after valid_until_ts;  malformed: the only signature is not base64 / has the wrong length
 Faults == {"absent", "corrupt", "stale", "stale_kept", "wrongkey", "unknownkey", "expired", "after_vu", "exp_eq", "vu_m1",
-           "malformed"}
+           "malformed", "vouched"}
+\* vouched: the signature under the server's name is made with another party's key under a key ID the server does
+\* not have; the key response of ANOTHER required server (asked for its own keys) names this server and lists that
+\* key.  Nobody but a server itself (or a notary it signed for) can say what its keys are.
 
 \* --- what a signature covers: the redacted event (Redaction.tla), per room version and event type ----------------
 \* org.example.member: NOT a membership event, but dressed like an invite of a user on s2 carrying
@@ -128,7 +131,7 @@ Good(st, t, v) ==
 \* cannot obtain the key must not accept)
 Eff(st, where, volunteered, fl) ==
     IF st = "absent" THEN st
-    ELSE IF fl = "db" \/ (fl = "fetcher" /\ where = "fetcher") THEN "nokey"
+    ELSE IF fl = "db" \/ (fl = "fetcher" /\ where # "db") THEN "nokey"
     ELSE IF st \in {"after_vu", "vu_m1"} /\ volunteered /\ fl = "none" /\ where = "db" THEN "ok" ELSE st
 EffSig(sg, sr, vl, fl) == [s \in Servers |-> Eff(sg[s], sr[s], vl, fl)]
 
@@ -154,8 +157,9 @@ Events(v) ==
              k \in {"join", "invite", "leave"}, t \in {"s1", "s2"}, a \in {"s1", "s2", "s3"}, x \in esrvs})
 
 StatesFor(v, e) ==
-    ((IF PseudoIDs(v) THEN (GoodStates \cup Faults) \ (TimeFaults \cup TimeGood) ELSE GoodStates \cup Faults)
-     \ (IF KeptKey(v, e) = "" THEN {"stale_kept"} ELSE {}))
+    ((IF PseudoIDs(v) THEN (GoodStates \cup Faults) \ (TimeFaults \cup TimeGood \cup {"vouched"}) ELSE GoodStates \cup Faults)
+     \ ((IF KeptKey(v, e) = "" THEN {"stale_kept"} ELSE {})
+         \cup (IF Cardinality(Required(v, e)) < 2 THEN {"vouched"} ELSE {})))      \* vouched needs a second required server
     \* the event types that only differ in what their signature covers: the crypto states
     \cap (IF e.kind = "nonmember" /\ e.etype # "m.room.message"
           THEN {"ok", "absent", "corrupt", "stale", "stale_kept", "malformed"} ELSE GoodStates \cup Faults)
@@ -187,6 +191,9 @@ Sources(v, e, a) ==
         sets == IF MaxFaults < 2 THEN {{}} \cup {{r} : r \in R} ELSE SUBSET R
     IN IF v \in SourceVersions /\ ~PseudoIDs(v) /\ FullFamily(e) /\ (\E s \in R : a[s] # "absent") /\ (\A s \in Servers \ R : a[s] = "absent")
        THEN {<<[s \in Servers |-> IF s \in F THEN "fetcher" ELSE "db"], vl>> : F \in sets, vl \in BOOLEAN}
+            \* the same with the library's own fetchers over a scripted federation client: the servers' signed key
+            \* responses (current keys, old_verify_keys with their expired_ts) fetched directly / through a notary
+            \cup {<<[s \in Servers |-> IF s \in F THEN fk ELSE "db"], FALSE>> : F \in sets \ {{}}, fk \in {"direct", "persp"}}
        ELSE {<<AllDB, FALSE>>}
 
 Init ==
@@ -198,7 +205,9 @@ Init ==
                     \* failing key sources: with everything signed well (what would otherwise succeed)
                     /\ fail \in (IF v \in SourceVersions /\ ~PseudoIDs(v) /\ FullFamily(e)
                                     /\ (\A s \in Servers : a[s] = IF s \in Required(v, e) THEN "ok" ELSE "absent")
-                                 THEN (IF k = <<AllDB, FALSE>> THEN {"none", "db"} ELSE {"none", "db", "fetcher"})
+                                 THEN (IF k = <<AllDB, FALSE>> THEN {"none", "db"}
+                                       ELSE IF \E s \in Servers : k[1][s] \in {"direct", "persp"} THEN {"none"}
+                                       ELSE {"none", "db", "fetcher"})
                                  ELSE {"none"})
                     /\ mapst \in (IF PseudoIDs(v) /\ e.kind = "join"
                                      /\ (\A s \in Servers : a[s] = IF s \in Required(v, e) THEN "ok" ELSE "absent")
@@ -253,7 +262,7 @@ PSources == Done => /\ (\A s \in R : sig[s] = "expired" => ~verdict)
                     /\ ((fail = "none" /\ mapst = "ok" /\ \A s \in R : sig[s] \notin {"after_vu", "vu_m1"}) => verdict = Verify(ver, ev, sig, tm, pres))
                     /\ (~vol /\ fail = "none" /\ mapst = "ok" => verdict = Verify(ver, ev, sig, tm, pres))
 \* a missing / corrupted / wrong-key / out-of-validity signature from any one required server makes it fail
-POneBad == Done => (\A s \in R : sig[s] \in {"absent", "corrupt", "stale", "stale_kept", "wrongkey", "unknownkey", "expired", "exp_eq", "malformed"} => ~verdict)
+POneBad == Done => (\A s \in R : sig[s] \in {"absent", "corrupt", "stale", "stale_kept", "wrongkey", "unknownkey", "expired", "exp_eq", "malformed", "vouched"} => ~verdict)
 \* signatures of other servers never matter
 POthers == (Done /\ mapst = "ok") => verdict = Verify(ver, ev, [s \in Servers |-> IF s \in R THEN Eff(sig[s], src[s], vol, fail) ELSE "absent"], tm, pres)
 \* sanity of Required
